@@ -107,6 +107,12 @@ func c14Configure(sp *saml2.SAMLServiceProvider, kc int) (string, *c14Key) {
 		sp.SPSigningKeyStore = k.rsaB.ks
 		sp.SetSPKeyStore(&saml2.KeyStore{Signer: k.rsaA.signer, Cert: k.rsaA.cert})
 		return "field:sign+setter:enc", k.rsaB
+	case 7:
+		// a deployment half-way through the migration to the setters: the deprecated field still holds the PREVIOUS key,
+		// the current one was installed with SetSPKeyStore; the setter wins, for signing as for decryption
+		sp.SPKeyStore = k.rsaB.ks
+		sp.SetSPKeyStore(&saml2.KeyStore{Signer: k.rsaA.signer, Cert: k.rsaA.cert})
+		return "field:stale-enc+setter:enc", k.rsaA
 	default:
 		sp.SPKeyStore = k.rsaA.ks
 		sp.SetSPSigningKeyStore(&saml2.KeyStore{Signer: k.ed.signer, Cert: k.ed.cert})
@@ -417,7 +423,7 @@ func c14Run(c *Ctx, n int) {
 		sp.SignAuthnRequests = r.Intn(4) != 0
 		alg := algs[r.Intn(len(algs))]
 		sp.SignAuthnRequestsAlgorithm = alg
-		kc := r.Intn(7)
+		kc := r.Intn(8)
 		if kc == 6 && r.Intn(3) != 0 {
 			kc = r.Intn(6)
 		}
